@@ -103,8 +103,9 @@ def wb_interaction_matrix(m):
         mm.attach["get_interaction_matrix"] += 1
         mm.ev("wb-interaction-matrix")
         try:
-            x2 = x if x.ndim == 2 else x[:, None]
-            y2 = y if y.ndim == 2 else y[:, None]
+            # (the mathematical product: computed in float, so that the monitor does not wrap around with narrow ints)
+            x2 = np.asarray(x if x.ndim == 2 else x[:, None], dtype=float)
+            y2 = np.asarray(y if y.ndim == 2 else y[:, None], dtype=float)
             want = (x2[:, :, None] * y2[:, None, :]).reshape(x2.shape[0], -1)
             if r.shape != want.shape or not np.allclose(r, want, equal_nan=True):
                 mm.violation("wb-interaction-matrix", f"product of {x2.shape} and {y2.shape} is not first-factor-slowest",
